@@ -29,8 +29,8 @@ ASSUMPTIONS = [
     "only meaningful (and only injected) for tensor_method()",
 ]
 
-FAULTS_EVALUATE = ["drop", "extra", "nontensor", "dim", "order"]
-FAULTS_METHOD = ["drop", "extra", "nontensor", "dim", "order", "mode", "ordering", "name", "positional"]
+FAULTS_EVALUATE = ["drop", "extra", "nontensor", "dim", "dim0", "order"]
+FAULTS_METHOD = ["drop", "extra", "nontensor", "dim", "dim0", "order", "mode", "ordering", "name", "positional"]
 ALLOWED = {"TypeError", "ValueError", "UndefinedReferenceError", "UnusedFormatError", "IncorrectDimensionsError"}
 
 
@@ -162,7 +162,7 @@ def apply_fault(case, inputs, formats):
         n = names[f["pick"] % len(names)]
         inputs["q" + n] = inputs.pop(n)
         return inputs, formats, f"argument {n} passed as q{n}", True, False
-    if kind == "dim":
+    if kind in ("dim", "dim0"):
         idxs = [i for i in X.indexes_of(tree) if len(slots_of(tree, i)) >= 2]
         if not idxs:
             return inputs, formats, "", False, False
@@ -170,7 +170,7 @@ def apply_fault(case, inputs, formats):
         sl = slots_of(tree, i)
         name, pos = sl[f["pick2"] % len(sl)]
         dims = list(C.tensor_dims(asg, case["sizes"], name))
-        dims[pos] = max(0, dims[pos] + f["delta"])
+        dims[pos] = 0 if kind == "dim0" else max(0, dims[pos] + f["delta"])
         if dims[pos] == C.tensor_dims(asg, case["sizes"], name)[pos]:
             dims[pos] += 1
         inputs[name] = empty_tensor(dims, formats[name])
